@@ -51,7 +51,7 @@ class FileSystemLoader(BaseLoader):
         """
         template_path = Path(template_name)
 
-        if self.ext and not template_path.suffix:
+        if self.ext and template_path.name and not template_path.suffix:
             template_path = template_path.with_suffix(self.ext)
 
         if template_path.is_absolute() or os.path.pardir in template_path.parts:
@@ -59,7 +59,11 @@ class FileSystemLoader(BaseLoader):
 
         for path in self.search_path:
             source_path = path.joinpath(template_path)
-            if not source_path.exists():
+            try:
+                if not source_path.is_file():
+                    continue
+            except OSError:
+                # A name the file system can't represent, one that's too long, for example.
                 continue
             return source_path
         raise TemplateNotFoundError(template_name)
